@@ -404,27 +404,42 @@ theorem step_addFile_nopath (f : Fns) (cur : List Entry) (s : State) (u : UrlKin
   · rfl
   · simp [h]
 
-/-- `untitled:/a/b.md`: the dictionary that is saved holds the new word alone -/
+/-- an `untitled:` URL, with or without a path: `save_file_dictionary` returns before writing (repo
+commit 861d597) — no dictionary file is touched, the user dictionary and the JS linter neither -/
+theorem step_addFile_untitled (f : Fns) (cur : List Entry) (s : State) (u : UrlKind) (n : Nat)
+    (w : Word) (ord : List Word) (h : u.untitled = true) :
+    (step f cur s (.addFile u n w ord)).1.files = s.files ∧
+    (step f cur s (.addFile u n w ord)).1.user = s.user ∧
+    (step f cur s (.addFile u n w ord)).1.js = s.js ∧
+    (step f cur s (.addFile u n w ord)).2 = [] := by
+  simp only [step, loadFileDict_untitled f u _ h, h, if_true]
+  split <;> exact ⟨rfl, rfl, rfl, rfl⟩
+
+/-- `untitled:/a/b.md`: nothing is saved (before 861d597 the dictionary holding the new word alone was
+written over the file dictionary of `/a/b.md`); the document is re-read from its path -/
 theorem step_addFile_untitledPath (f : Fns) (cur : List Entry) (s : State) (n : Nat) (w : Word)
     (ord : List Word) :
     step f cur s (.addFile untitledPathUrl n w ord) =
-      ({ s with files := (n, .file (writeLog (orderOf ord [w])) false) :: s.files,
-                mem := loadOrEmpty f s.user }, []) := by
-  simp only [step, loadFileDict, if_true, insert, run_saveTrace]
+      ({ s with mem := loadOrEmpty f s.user }, []) := by
+  simp only [step, loadFileDict, if_true]
 
 theorem step_addFile_user (f : Fns) (cur : List Entry) (s : State) (u : UrlKind) (n : Nat)
     (w : Word) (ord : List Word) : (step f cur s (.addFile u n w ord)).1.user = s.user := by
   simp only [step]
   split
   · rfl
-  · split <;> rfl
+  · split
+    · split <;> rfl
+    · rfl
 
 theorem step_addFile_js (f : Fns) (cur : List Entry) (s : State) (u : UrlKind) (n : Nat)
     (w : Word) (ord : List Word) : (step f cur s (.addFile u n w ord)).1.js = s.js := by
   simp only [step]
   split
   · rfl
-  · split <;> rfl
+  · split
+    · split <;> rfl
+    · rfl
 
 /-- whatever the URL kind, `HarperAddToFileDict` for the name `n` leaves every other name's file alone -/
 theorem step_addFile_fileDisk_ne (f : Fns) (cur : List Entry) (s : State) (u : UrlKind) (n m : Nat)
@@ -434,7 +449,9 @@ theorem step_addFile_fileDisk_ne (f : Fns) (cur : List Entry) (s : State) (u : U
   split
   · rfl
   · split
-    · exact fileDisk_cons_ne _ _ _ _ h
+    · split
+      · rfl
+      · exact fileDisk_cons_ne _ _ _ _ h
     · rfl
 
 theorem step_lint_user (f : Fns) (cur : List Entry) (s : State) (u : UrlKind) (n : Nat)
